@@ -114,6 +114,25 @@ def pairs(tier):
         ('att-neg-imul32', 'imul ebx, ecx, -{0}', False, 'imull $-{0}, %ecx, %ebx', True, 'lim31'),
         ('att-neg-push', 'push -{0}', False, 'pushl $-{0}', True, 'lim31'),
     ]
+    # letter case of register names, per register class (each class has its own table / lexer route)
+    P += [
+        ('case-r32', 'mov eax, ebx', False, 'mov EAX, EBX', False, None),
+        ('case-r32-mixed', 'mov esi, edi', False, 'mov Esi, eDI', False, None),
+        ('case-r16', 'mov ax, bx', False, 'mov AX, BX', False, None),
+        ('case-r8', 'mov al, bh', False, 'mov AL, BH', False, None),
+        ('case-r32-mem', 'mov eax, DWORD PTR [ebx+esi*2+{0}]', False, 'mov EAX, DWORD PTR [EBX+ESI*2+{0}]', False, None),
+        ('case-mm', 'movq mm0, mm1', False, 'movq MM0, MM1', False, None),
+        ('case-mm-one', 'movq mm2, mm3', False, 'movq MM2, mm3', False, None),
+        ('case-mm-mem', 'movq mm1, QWORD PTR [ebx+{0}]', False, 'movq MM1, qword ptr [EBX+{0}]', False, None),
+        ('case-xmm', 'movaps xmm0, xmm1', False, 'movaps XMM0, XMM1', False, None),
+        ('case-xmm-one', 'movaps xmm3, xmm4', False, 'movaps xmm3, XMM4', False, None),
+        ('case-xmm-mem', 'movaps xmm2, XMMWORD PTR [ebx+{0}]', False, 'movaps XMM2, xmmword ptr [ebx+{0}]', False, None),
+        ('case-xmm-r32', 'cvtsi2sd xmm0, ecx', False, 'cvtsi2sd XMM0, ECX', False, None),
+        ('case-cr', 'mov eax, cr0', False, 'mov EAX, CR0', False, None),
+        ('case-dr', 'mov eax, dr1', False, 'mov EAX, DR1', False, None),
+        ('case-sreg', 'mov ax, es', False, 'mov AX, ES', False, None),
+        ('case-mm-imm', 'psrlq mm1, {0}', False, 'psrlq MM1, {0}', False, None),
+    ]
     P += [
         ('st0', 'fadd st, st(1)', False, 'fadd st(0), st(1)', False, None),
         ('st0b', 'fxch st(1)', False, 'fxch st(1)', False, None),
